@@ -147,6 +147,7 @@ MonInit(p) ==
    over |-> FALSE,    \* more than cap activations ran together since the last idle point
    trig |-> FALSE,    \* a cancel-on-press macro was started since the last idle point
    lastc |-> "none",  \* kind of the last cancellation
+   dused |-> {},      \* macros with an activation outside the sharp zone that is no longer tracked
    vbal |-> 0,        \* virtual-key taps seen minus taps owed by completed macros
    err |-> ""]
 
@@ -160,9 +161,10 @@ MonInit(p) ==
 \*  release (-1 no limit); zomb ticks the finished macro still counts as active; life = upper bound on
 \*  the ticks an activation outside the sharp zone can still be active
 NewAct(m, mi, clean) ==
-  [mi |-> mi, pos |-> 0, held |-> {}, el |-> 0, stepped |-> FALSE, st |-> "live", ttlS |-> 0 - 1,
-   ttlC |-> 0 - 1, clean |-> clean, proc |-> m.ql + 1, rnd |-> 1, key |-> TRUE, rttl |-> 0 - 1,
-   zomb |-> m.x[mi].trail, life |-> m.ql + m.x[mi].dur + 3]
+  LET empty == m.x[mi].N = 0 IN     \* a body without visible steps only keeps the macro active for a while
+  [mi |-> mi, pos |-> 0, held |-> {}, el |-> 0, stepped |-> FALSE, st |-> IF empty THEN "done" ELSE "live",
+   ttlS |-> 0 - 1, ttlC |-> 0 - 1, clean |-> clean, proc |-> m.ql + 1, rnd |-> 1, key |-> TRUE, rttl |-> 0 - 1,
+   zomb |-> IF empty THEN m.ql + 1 + m.x[mi].trail ELSE m.x[mi].trail, life |-> m.ql + m.x[mi].dur + 3]
 
 SharpCancelled(a) == a.st \in {"canc", "cleaning"} /\ a.ttlC >= 0
 
@@ -196,13 +198,15 @@ MonIn(m, r) ==
                                     ~SharpCancelled(m1.acts[i])
                                     /\ (m.x[m1.acts[i].mi].keys \cap m.x[mi].keys # {}
                                         \/ m.x[m1.acts[i].mi].chars \cap m.x[mi].chars # {})}
+                        dconfl == \E j \in m.dused : m.x[j].keys \cap m.x[mi].keys # {}
+                                                      \/ m.x[j].chars \cap m.x[mi].chars # {}
                     IN IF occ > p.cap
                        THEN [m1 EXCEPT !.over = TRUE, !.acts = <<>>]
                        ELSE [m1 EXCEPT !.trig = @ \/ p.macros[mi].pc,
                                        !.acts = Append([i \in DOMAIN m1.acts |->
                                                           IF i \in confl THEN [m1.acts[i] EXCEPT !.clean = FALSE]
                                                           ELSE m1.acts[i]],
-                                                       NewAct(m, mi, confl = {}))]
+                                                       NewAct(m, mi, confl = {} /\ ~dconfl))]
        ELSE IF mi = 0 THEN m0
        ELSE LET sharp == SharpQ(m)
                 m1 == [m0 EXCEPT !.acts = [i \in DOMAIN m.acts |->
@@ -210,7 +214,7 @@ MonIn(m, r) ==
                                              IF a.mi = mi /\ a.key
                                              THEN [a EXCEPT !.key = FALSE,
                                                             !.rttl = IF sharp THEN m.ql + 2 ELSE 0 - 1,
-                                                            !.life = m.ql + m.x[mi].dur + 3]
+                                                            !.life = m.ql + 2 * m.x[mi].dur + 3]
                                              ELSE a]]
             IN IF p.macros[mi].rc
                THEN IF sharp THEN CancelAll(m1, m.ql + 1, m.ql + 2, "rc") ELSE CancelAll(m1, 0 - 1, 0 - 1, "rc")
@@ -256,7 +260,10 @@ ApplyStep(m, i, kind, arg) ==
 MacroEvent(m, kind, arg) ==
   LET acts == m.acts
       C == {i \in DOMAIN acts : IF kind = "U" THEN arg \in m.x[acts[i].mi].chars ELSE arg \in m.x[acts[i].mi].keys}
+      D == {j \in m.dused : IF kind = "U" THEN arg \in m.x[j].chars ELSE arg \in m.x[j].keys}
   IN IF m.over THEN m
+     ELSE IF D # {}     \* may stem from an activation outside the sharp zone: nothing can be said
+     THEN [m EXCEPT !.acts = [i \in DOMAIN acts |-> IF i \in C THEN [acts[i] EXCEPT !.clean = FALSE] ELSE acts[i]]]
      ELSE IF C = {} THEN Fail(m, "C08 S0: output on a macro's key while no macro that uses the key is running")
      ELSE IF \E i \in C : ~acts[i].clean
      THEN [m EXCEPT !.acts = [i \in DOMAIN acts |-> IF i \in C THEN [acts[i] EXCEPT !.clean = FALSE] ELSE acts[i]]]
@@ -312,11 +319,12 @@ MonTick(m, out, idle, cb) ==
         Keep(a) == /\ ~(a.st = "done" /\ a.zomb < 0)
                    /\ ~(a.ttlC = 0)
                    /\ ~(~a.clean /\ a.life <= 0 /\ ~(p.macros[a.mi].rep /\ a.key))
-        acts2 == SelectSeq([i \in DOMAIN m1.acts |-> EndAct(m1.acts[i])], Keep)
+        ended == [i \in DOMAIN m1.acts |-> EndAct(m1.acts[i])]
+        acts2 == SelectSeq(ended, Keep)
+        dused2 == m1.dused \cup {ended[i].mi : i \in {j \in DOMAIN ended : ~ended[j].clean /\ ~Keep(ended[j])}}
         \* idle: nothing is queued and no macro runs
         judged(a) == a.clean /\ a.st = "live" /\ a.proc <= 1
-        s3 == idle /\ \E i \in DOMAIN m1.acts : LET a == m1.acts[i] IN
-                        judged(a) /\ a.pos < m.x[a.mi].N /\ (a.rnd = 1 \/ a.pos > 0)
+        s3 == idle /\ \E i \in DOMAIN m1.acts : LET a == m1.acts[i] IN judged(a) /\ a.pos < m.x[a.mi].N
         r1 == idle /\ \E i \in DOMAIN m1.acts : LET a == m1.acts[i] IN
                         a.st = "live" /\ a.proc <= 1 /\ p.macros[a.mi].rep /\ a.key
         acts3 == IF idle THEN SelectSeq(acts2, LAMBDA a : SharpCancelled(a) /\ a.clean) ELSE acts2
@@ -342,6 +350,7 @@ MonTick(m, out, idle, cb) ==
                   !.gapIn = 0, !.lastIdle = idle,
                   !.over = IF settled THEN FALSE ELSE @,
                   !.trig = IF idle THEN FALSE ELSE @,
+                  !.dused = IF idle THEN {} ELSE dused2,
                   !.lastc = IF settled THEN "none" ELSE @,
                   !.vbal = IF settled THEN 0 ELSE @]
 
@@ -349,7 +358,7 @@ RECURSIVE MonSilent(_, _, _, _)
 MonSilent(m, n, idle, cb) ==
   IF n = 0 \/ m.err # "" THEN m
   ELSE IF m.acts = <<>> /\ m.ql = 0 /\ m.gapIn = 0 /\ m.lastIdle = idle /\ idle /\ ~m.over /\ ~m.trig
-          /\ m.lastc = "none" /\ m.vbal = 0 /\ m.down = {}
+          /\ m.lastc = "none" /\ m.vbal = 0 /\ m.down = {} /\ m.dused = {}
   THEN m
   ELSE MonSilent(MonTick(m, <<>>, idle, cb), n - 1, idle, cb)
 =============================================================================
